@@ -77,6 +77,8 @@ def cases(tier, seed):
         for z, x, generic in _orientations(tier):
             out.append({"ant": kind, "z": list(z), "x": list(x), "generic": generic})
         out.append({"ant": kind, "signals": True})
+        # one antenna object walked through the whole orbit with set_orientation (state graph: orientation history)
+        out.append({"ant": kind, "walk": True, "tier": tier})
     return out
 
 
@@ -269,7 +271,47 @@ def _sf(check, kind, what):
     return {"check": check, "what": "%s: %s" % (kind, what), "tags": {"ant": kind, "group": check}}
 
 
+def _walk_case(case):
+    """The same antenna object is re-oriented (public set_orientation) through every orientation of the orbit, processing
+    directional signals at each stop; every response must equal that of the closed form for the *current* orientation."""
+    from pyrex.signals import Signal
+    kind = case["ant"]
+    orients = _orientations(case["tier"])
+    z0, x0, _ = orients[0]
+    obj, ant = _make(kind, z0, x0)
+    t, base = _signals()
+    vals = base[3]
+    resp = (lambda f: complex(ant.frequency_response(np.array([f]))[0])) if "dipole" in kind else _resp_ref
+    ref, _ = dft.filtered_reference(vals, DT, resp, False)
+    sig = Signal(t, vals, Signal.Type.field)
+    fails = []
+    nontriv = []
+    n = 0
+    probes = [((1, 0, -1), (0, 1, 1)), ((-1, 1, 1), (1, 1, 0)), ((0, -1, 0), (1, 0, 1))]
+    for step_no, (z, x, generic) in enumerate(orients + orients[:2]):
+        if step_no:
+            obj.set_orientation(z_axis=z, x_axis=x)
+        for d, p in probes:
+            n += 1
+            out = obj.apply_response(sig, direction=np.array(d, float), polarization=np.array(p, float))
+            dg, pg, eff, factor = _expected_gains(kind, ant, z, x, d, p)
+            exp = ref * dg * pg * eff / factor
+            err = float(np.max(np.abs(np.asarray(out.values) - exp)))
+            if not err <= (1e-12 if not generic else 1e-11):
+                fails.append({"check": "reorientation",
+                              "what": "%s after %d set_orientation calls (now z=%s x=%s), direction=%s polarization=%s: response %s..., "
+                                      "expected for the current orientation %s..." % (kind, step_no, list(z), list(x), d, p,
+                                                                                      np.asarray(out.values)[:3].tolist(), exp[:3].tolist()),
+                              "tags": {"ant": kind, "group": "reorientation"}, "size": step_no})
+                break
+            if abs(dg * pg) > 1e-9:
+                nontriv.append("%s|walk|%d|%s|%s" % (kind, step_no, d, p))
+    return {"n": n, "nontrivial": nontriv, "fails": fails[:3], "sample": {"ant": kind, "orientations_walked": len(orients) + 2}}
+
+
 def evaluate(case):
     if case.get("signals"):
         return _signal_case(case)
+    if case.get("walk"):
+        return _walk_case(case)
     return _geometry_case(case)
